@@ -36,7 +36,7 @@ ASSUMPTIONS = [
     "out-of-range int index may raise IndexError; empty selections must be rejected (non-empty contract) with ValueError",
     "text made only of digits 0/1 is a bit pattern (C19 rule) and is modelled as the values 0/1",
 ]
-N_RUNS = {"quick": 4000, "thorough": 40000}
+N_RUNS = {"quick": 8000, "thorough": 40000}
 LENGTHS = [1, 2, 3, 5, 7, 16, 17, 31, 64, 257, 4096]
 
 
